@@ -58,19 +58,23 @@ pub fn parse_format_string_parameters(
     datatype_properties: &DatatypeProperties,
 ) -> Result<Vec<(Datatype, ByteSize)>, Error> {
     // Regex parts:
+    // - `%%` matches an escaped percent sign. It has to be matched (and skipped) explicitly,
+    //   since otherwise its second `%` could be mistaken for the start of a format string parameter (e.g. in `%%d`).
     // - `%` starts a format string parameter
     // - `[+\-#0]{0,1}` matches the flags `+`, `-`, `#`, `0` if present (for printf-like functions)
     // - `\d*` matches the width parameter
     // - `[\.]?\d*` matches the precision parameter (for printf-like functions)
     // - `[cCdiouxXeEfFgGaAnpsS]` matches a format specifier without length parameter.
     // - `hi|hd|hu|li|ld|lu|lli|lld|llu|lf|lg|le|la|lF|lG|lE|lA|Lf|Lg|Le|La|LF|LG|LE|LA` matches format specifiers with length parameter.
-    let re = Regex::new(r"%[+\-#0]{0,1}\d*[\.]?\d*([cCdiouxXeEfFgGaAnpsS]|hi|hd|hu|li|ld|lu|lli|lld|llu|lf|lg|le|la|lF|lG|lE|lA|Lf|Lg|Le|La|LF|LG|LE|LA)")
+    let re = Regex::new(r"%%|%[+\-#0]{0,1}\d*[\.]?\d*([cCdiouxXeEfFgGaAnpsS]|hi|hd|hu|li|ld|lu|lli|lld|llu|lf|lg|le|la|lF|lG|lE|lA|Lf|Lg|Le|La|LF|LG|LE|LA)")
         .expect("No valid regex!");
 
     let datatype_map: Vec<(Datatype, ByteSize)> = re
         .captures_iter(format_string)
-        .map(|cap| {
-            let data_type = Datatype::from(cap[1].to_string());
+        // An escaped percent sign has no format specifier and consumes no parameter.
+        .filter_map(|cap| cap.get(1).map(|specifier| specifier.as_str().to_string()))
+        .map(|specifier| {
+            let data_type = Datatype::from(specifier);
             let size = {
                 // Considers argument promotion for char type
                 if matches!(data_type, Datatype::Char) {
